@@ -317,12 +317,22 @@ func TestC14(t *testing.T) {
 
 var errInjectedWrite = errors.New("injected write failure")
 
+// c15SameAsModel decodes a wire text with the reference line parser and compares it with the model
+// of the API calls. The exact bytes are the library's business; what they mean is the property's.
+func c15SameAsModel(wire string, model *ref.Msg) bool {
+	if model.Empty() {
+		return wire == ""
+	}
+	got, n, ok := ref.DecodeMsg(wire)
+	return ok && n == len(wire) && got.Same(model)
+}
+
 func c15Message(r *fw.Run, key string, b *builtMsg, faultAll bool) {
-	enc := b.Model.Encode()
 	var buf bytes.Buffer
 	n, err := b.Msg.WriteTo(&buf)
 	mt, merr := b.Msg.MarshalText()
 	st := b.Msg.String()
+	enc := buf.String() // the fault-free encoding: reference for the prefix checks below
 	r.Eval(fw.Hash("c15", enc), len(b.Model.Lines) > 0 || b.Model.HasID || b.Model.HasType)
 	r.Count("messages", 1)
 	if err != nil || merr != nil || buf.String() != string(mt) || st != buf.String() || int(n) != buf.Len() {
@@ -344,9 +354,9 @@ func c15Message(r *fw.Run, key string, b *builtMsg, faultAll bool) {
 			return
 		}
 	}
-	if buf.String() != enc {
-		r.Violation(key, []string{"encoding_differs_from_model"}, map[string]any{"ops": b.Ops, "got": fw.Q(fw.Trunc(buf.String(), 400)), "want": fw.Q(fw.Trunc(enc, 400))},
-			"C15: encoding differs from the line model of the API arguments")
+	if !c15SameAsModel(enc, b.Model) {
+		r.Violation(key, []string{"encoding_differs_from_model"}, map[string]any{"ops": b.Ops, "got": fw.Q(fw.Trunc(enc, 400)), "model": fw.Q(fw.Trunc(b.Model.Encode(), 400))},
+			"C15: the encoding does not read back (reference line parser) as the fields and lines given through the API")
 		return
 	}
 	if b.Model.Empty() {
@@ -378,7 +388,7 @@ func c15Message(r *fw.Run, key string, b *builtMsg, faultAll bool) {
 		if m2.Retry.Milliseconds() != wantRetry || m2.Retry.Nanoseconds() != wantRetry*1e6 {
 			okFields = false
 		}
-		if re != enc || !okFields {
+		if !c15SameAsModel(re, b.Model) || !okFields {
 			r.Violation(key, []string{"roundtrip_differs"}, map[string]any{"ops": b.Ops, "wire": fw.Q(fw.Trunc(enc, 400)), "reencoded": fw.Q(fw.Trunc(re, 400))},
 				"C15: UnmarshalText(MarshalText(m)) does not reproduce the message (fields ok=%v)", okFields)
 		}
